@@ -26,6 +26,19 @@ def NoFault : Op → Prop
 instance (o : Op) : Decidable (NoFault o) := by
   cases o <;> simp only [NoFault] <;> exact inferInstance
 
+/-- the steps the continuation of `can_reach_exec` is made of: the system's own steps (the poller,
+the workers, a pending Add's send, the clock) with successful executions; no new tasks, no faults -/
+def SysOp : Op → Prop
+  | .finish _ ok => ok = true
+  | .take _ | .pollEnq | .addEnq _ | .pollMark | .pollFetch | .advance _ => True
+  | _ => False
+
+instance (o : Op) : Decidable (SysOp o) := by
+  cases o <;> simp only [SysOp] <;> exact inferInstance
+
+theorem SysOp.noFault {o : Op} (h : SysOp o) : NoFault o := by
+  cases o <;> simp_all [SysOp, NoFault]
+
 def tagWeight : Place → Nat
   | .adding => 4
   | .retrying => 4
@@ -173,7 +186,7 @@ theorem mlt_right {a b c c' : Nat} (h : c' < c) : MLt (a, b, c') (a, b, c) :=
 
 /-- the conclusion shape of `helpful` -/
 def Progress (s : State) (k : Key) (o : Op) : Prop :=
-  NoFault o ∧ (step s o).mode = .up ∧ (step s o).cfg = s.cfg ∧ k ∈ keys (step s o).rows ∧
+  SysOp o ∧ (step s o).mode = .up ∧ (step s o).cfg = s.cfg ∧ k ∈ keys (step s o).rows ∧
     MLt (meas (step s o) k) (meas s k)
 
 theorem helpful (s : State) (g : Good s) (hup : s.mode = .up) (hc : WFCfg s.cfg) (k : Key)
@@ -354,7 +367,7 @@ theorem helpful (s : State) (g : Good s) (hup : s.mode = .up) (hc : WFCfg s.cfg)
 some fault-free continuation leads to a state where a worker is executing the task. -/
 theorem can_reach_exec (s : State) (g : Good s) (hup : s.mode = .up) (hc : WFCfg s.cfg) (k : Key)
     (hk : k ∈ keys s.rows) :
-    ∃ ops : List Op, (∀ o ∈ ops, NoFault o) ∧ ∃ p, placeOf (ops.foldl step s).own k = some (.running p) := by
+    ∃ ops : List Op, (∀ o ∈ ops, SysOp o) ∧ ∃ p, placeOf (ops.foldl step s).own k = some (.running p) := by
   by_cases hrun : ∃ p, placeOf s.own k = some (.running p)
   · exact ⟨[], by simp, hrun⟩
   · obtain ⟨o, hnf, hm, hcfg, hk', hd⟩ := helpful s g hup hc k hk hrun
